@@ -237,6 +237,50 @@ class ClassTable:
                 mi.is_pkg = fn == "__init__.py"
                 self.modules[modname] = mi
                 self._scan_module(mi)
+                self._extract_fragments(mi)
+
+    def _extract_fragments(self, mi):
+        """Mechanical extraction of code fragments that sit inside functions pyvc cannot take as a whole.
+        emulator/unitary.py, _make_subcircuit: the ARGUMENT WIRING of one gate - the statements `argv = []`,
+        `qind = []` and the `for param, val in zip(...)` loop, cut out by AST position and wrapped, unchanged, as
+
+            def _extracted_wiring(gatedef, gate):  argv = []; qind = []; <the loop>; return (argv, qind)
+
+        Dropped: everything else of the enclosing loop body (the gate-definition lookup, the `continue` for gates
+        without unitary, the multiplication).  Nothing inside the loop is changed.  The synthetic function lives
+        only in the class table (never written to disk, never executed by CPython)."""
+        if not mi.name.endswith("emulator.unitary"):
+            return
+        fn = None
+        for n in ast.walk(mi.tree):
+            if isinstance(n, ast.FunctionDef) and n.name == "_make_subcircuit":
+                fn = n
+        if fn is None:
+            return
+        loops = [n for n in ast.walk(fn) if isinstance(n, ast.For) and isinstance(n.iter, ast.Call)
+                 and isinstance(n.iter.func, ast.Name) and n.iter.func.id == "zip"]
+        if len(loops) != 1:
+            return
+        loop = loops[0]
+
+        def init_of(name):
+            for n in ast.walk(fn):
+                if (isinstance(n, ast.Assign) and len(n.targets) == 1 and isinstance(n.targets[0], ast.Name) and n.targets[0].id == name
+                        and isinstance(n.value, ast.List) and not n.value.elts):
+                    return n
+            return None
+        a0, q0 = init_of("argv"), init_of("qind")
+        if a0 is None or q0 is None:
+            return
+        ret = ast.Return(value=ast.Tuple(elts=[ast.Name(id="argv", ctx=ast.Load()), ast.Name(id="qind", ctx=ast.Load())], ctx=ast.Load()))
+        args = ast.arguments(posonlyargs=[], args=[ast.arg(arg="gatedef"), ast.arg(arg="gate")], vararg=None, kwonlyargs=[], kw_defaults=[], kwarg=None, defaults=[])
+        f = ast.FunctionDef(name="_extracted_wiring", args=args, body=[a0, q0, loop, ret], decorator_list=[], returns=None, type_comment=None)
+        f.lineno = loop.lineno
+        f.end_lineno = getattr(loop, "end_lineno", loop.lineno)
+        f.col_offset = 0
+        ast.fix_missing_locations(f)
+        ret.lineno = f.end_lineno
+        mi.functions["_extracted_wiring"] = FuncInfo(mi.name, "_extracted_wiring", f)
 
     def _scan_module(self, mi):
         for node in mi.tree.body:
